@@ -915,6 +915,63 @@ pub fn table_case(c: &TableCase, shm: &Shm, check_filters: bool, cursor_len: usi
     }
 }
 
+/// Table builder under a failing filesystem: for every index of a create / write / flush call
+/// made while the table is built (once), either `table_build` reports the failure, or the table
+/// it claims to have written reads back completely.
+pub fn table_fault_case(c: &TableCase, shm: &Shm, clause: &str) {
+    use crate::vfs::{class, Fault};
+    let entries = table_entries(c);
+    let mut at = 0u64;
+    loop {
+        let fs = VerifFs::new();
+        let _ = fs.create_dir_all(Path::new("/t/data"));
+        let opts = table_options(&fs, c.block_size);
+        {
+            let mut st = fs.state();
+            st.fault = Some(Fault {
+                at_call: at,
+                sticky: false,
+                classes: class::CREATE | class::WRITE | class::FLUSH,
+                fired: false,
+            });
+            st.calls = 0;
+        }
+        let built = table_build(opts.clone(), 7, &entries);
+        let fired = fs.state().faults_fired > 0;
+        if !fired {
+            break;
+        }
+        fs.state().fault = None;
+        shm.add(C_CASES, 1);
+        shm.add(C_USER + 6, 1);
+        if built.is_ok() {
+            // the failure was not reported: then the file must be complete
+            let mut d = table_case_json(c);
+            d["failing_call_index"] = json!(at);
+            let ok = match table_open(opts.clone(), 7) {
+                Ok(t) => match t.blocks() {
+                    Ok(blocks) => blocks.iter().flat_map(|b| b.2.iter().cloned()).collect::<Vec<VerifEntry>>() == entries,
+                    Err(_) => false,
+                },
+                Err(_) => false,
+            };
+            if !ok {
+                found(
+                    shm,
+                    clause,
+                    &format!("filesystem call {} of the table build fails once, the build reports success, but the table file does not read back as the {} entries it was built from", at, entries.len()),
+                    d,
+                );
+                return;
+            }
+        }
+        at += 1;
+        if at > 10_000 {
+            break;
+        }
+    }
+}
+
 pub fn table_cases(max_keys: usize, block_sizes: &[usize], variants: usize) -> Vec<TableCase> {
     let nk = table_keys().len();
     let mut subsets: Vec<Vec<usize>> = vec![];
